@@ -38,7 +38,7 @@ const (
 
 // intr is one injected interruption.
 type intr struct {
-	Kind    string `json:"kind"`               // "kill": SIGKILL self at the point; "stop": StopPlot() at the point; "kill-async": the parent sends SIGKILL DelayUs after the child's Occ-th hook event
+	Kind    string `json:"kind"`               // "kill": SIGKILL self at the point; "stop": StopPlot() at the point; "stop-late": StopPlot() DelayUs after the point (a window start), without holding the plot up; "kill-async": the parent sends SIGKILL DelayUs after the child's Occ-th hook event
 	Point   string `json:"point"`              // hook point ("async" for kill-async)
 	Occ     int    `json:"occ"`                // 1-based occurrence of Point within this Plot() call (kill-async: ordinal of the hook event, all points counted)
 	DelayUs int    `json:"delay_us,omitempty"` // kill-async only
@@ -193,7 +193,7 @@ func childMain(args []string) {
 		}
 		if act == "" && in != nil && !fired {
 			switch in.Kind {
-			case "kill", "stop":
+			case "kill", "stop", "stop-late":
 				if in.Point == name && in.Occ == occ[name] {
 					act, fired = in.Kind, true
 				}
@@ -203,7 +203,7 @@ func childMain(args []string) {
 				}
 			}
 		}
-		if act == "stop" {
+		if act == "stop" || act == "stop-late" {
 			stopIssued = true
 		}
 		e.Act = act
@@ -219,6 +219,14 @@ func childMain(args []string) {
 				close(stopDone)
 			}()
 			time.Sleep(time.Millisecond) // lets the stop goroutine close the channel; the plot goes on until it polls it
+		case "stop-late":
+			// the stop request arrives DelayUs into the window that starts here: after the sweep's stop poll, during
+			// the sweep or the block-wise window write
+			go func() {
+				time.Sleep(time.Duration(in.DelayUs) * time.Microsecond)
+				<-mdb.StopPlot()
+				close(stopDone)
+			}()
 		case "signal":
 			os.Stdout.WriteString(goMark + "\n") // the parent kills DelayUs after reading this; plotting goes on meanwhile
 		case "abort-bound", "abort-noprogress":
